@@ -466,3 +466,95 @@ theorem termEq_iff (env : Env) (hk : KeysNonneg env) (hd : DefsBaseOnly env)
   simp
 
 end QM
+
+namespace QM
+
+/-! ### the shortcut paths of `reduceItems` preserve factor and exponents too -/
+
+theorem sem_filterItems (items : Items) :
+    numVal (filterItems items) = numVal items ∧ ∀ a, expOf a (filterItems items) = expOf a items := by
+  induction items with
+  | nil => exact ⟨rfl, fun _ => rfl⟩
+  | cons it rest ih =>
+    obtain ⟨el, e⟩ := it
+    unfold filterItems at *
+    simp only [List.filter_cons]
+    by_cases he : e = 0
+    · subst he
+      simp only [bne_self_eq_false, Bool.false_and, Bool.false_eq_true, ↓reduceIte]
+      cases el with
+      | num q => exact ⟨by rw [ih.1]; simp, fun a => by rw [ih.2 a]; simp⟩
+      | atom b => exact ⟨by rw [ih.1]; simp, fun a => by rw [ih.2 a]; simp⟩
+    · have hne : (e != 0) = true := by simp [he]
+      by_cases h1 : el = Elem.num 1
+      · subst h1
+        simp only [hne, bne_self_eq_false, Bool.and_false, Bool.false_eq_true, ↓reduceIte]
+        exact ⟨by rw [ih.1]; simp, fun a => by rw [ih.2 a]; simp⟩
+      · have hne1 : (el != Elem.num 1) = true := by simp [h1]
+        simp only [hne, hne1, Bool.and_self, ↓reduceIte]
+        cases el with
+        | num q => exact ⟨by simp [ih.1], fun a => by simp [ih.2 a]⟩
+        | atom b => exact ⟨by simp [ih.1], fun a => by simp [ih.2 a]⟩
+
+/-- every path of `_reduce_items` preserves the rational factor and the
+exponent of every element, for lists of pairwise non-convertible elements -/
+theorem sem_reduceItems (env : Env) (P : Nat → Prop)
+    (hP : ∀ x y, P x → P y → x ≠ y → getFactor env y x = none)
+    (items : Items) (hit : ∀ a ∈ atomsOf items, P a) (n : Option Nat) (keep : Bool) :
+    numVal (reduceItems env items n keep) = numVal items ∧
+    ∀ a, expOf a (reduceItems env items n keep) = expOf a items := by
+  have hgen := sem_reduceGeneral env P hP items hit keep
+  have hfil := sem_filterItems items
+  unfold reduceItems
+  split
+  · exact hfil
+  · exact sem_filterItems _
+  · -- two elements
+    rename_i a₁ e₁ a₂ e₂
+    have hp₁ : P a₁ := hit a₁ (by simp [atomsOf])
+    have hp₂ : P a₂ := hit a₂ (by simp [atomsOf])
+    by_cases h : a₁ = a₂
+    · subst h
+      simp only [if_true]
+      split
+      · rename_i h0
+        refine ⟨by simp, fun a => ?_⟩
+        simp only [expOf_nil, expOf_cons_atom, add_zero]
+        split <;> omega
+      · refine ⟨by simp, fun a => ?_⟩
+        simp only [expOf_nil, expOf_cons_atom, add_zero]
+        split <;> omega
+    · simp only [if_neg h]
+      rw [hP a₁ a₂ hp₁ hp₂ h]
+      simp only
+      split
+      · exact sem_filterItems _
+      · split
+        · have := sem_filterItems [(Elem.atom a₂, e₂), (Elem.atom a₁, e₁)]
+          refine ⟨by rw [this.1]; simp, fun a => ?_⟩
+          rw [this.2 a]; simp only [expOf_cons_atom, expOf_nil]; omega
+        · exact sem_filterItems _
+  · rename_i a₁ e₁ q₂ e₂
+    have := sem_filterItems [(Elem.num q₂, e₂), (Elem.atom a₁, e₁)]
+    refine ⟨by rw [this.1]; simp, fun a => ?_⟩
+    rw [this.2 a]; simp
+  · rename_i q₁ e₁ q₂ e₂
+    simp only
+    split
+    · refine ⟨by simp [rpow_eq_zpow], fun a => by simp⟩
+    · rename_i hne
+      refine ⟨?_, fun a => by simp⟩
+      have : rpow q₁ e₁ * rpow q₂ e₂ = 1 := by simpa using hne
+      simp only [numVal_nil, numVal_cons_num, mul_one]
+      rw [← rpow_eq_zpow, ← rpow_eq_zpow]; exact this.symm
+  · exact hgen
+
+end QM
+
+namespace QM
+
+instance (t : Items) : Decidable (Clean t) := by unfold Clean; infer_instance
+instance (env : Env) (t₁ t₂ : Items) : Decidable (KeysSeparate env t₁ t₂) := by
+  unfold KeysSeparate; infer_instance
+
+end QM
